@@ -4,7 +4,7 @@ from parserfam import *
 QUICK_KINDS = ["bare", "feq", "frange", "flist"]
 THOROUGH_KINDS = ["bare", "bareint", "feq", "feqq", "fwild", "fgt", "fle", "frange", "fxrange", "flist"]
 DEEP_KINDS = ["bare", "bareint", "barequoted", "barewild", "feq", "feqint", "feqfloat", "feqq", "fwild", "fstar", "fre",
-              "fgt", "fge", "flt", "fle", "frange", "fxrange", "fmrange", "flist", "flist3"]
+              "fgt", "fge", "flt", "fle", "frange", "fxrange", "fxirange", "fmrange", "flist", "flist3"]
 
 
 def common_assumptions(run):
